@@ -22,6 +22,9 @@ MAGS = [0, 1, 2, 3, 7, 100, 2 ** 31 - 1, 2 ** 31, 2 ** 32, 2 ** 63 - 1,
 
 
 def _num(rng):
+    if rng.random() < 0.06:
+        # integers that are not plain ints (a bool IS an integer)
+        return rng.choice([True, False])
     m = rng.choice(MAGS)
     if rng.random() < 0.3:
         m += rng.choice([-1, 1])
